@@ -369,7 +369,9 @@ func c13(c *Ctx) {
 			r.Hold("R13.I", "crc32:"+key, site, "")
 		}
 		if why, ex := excludedAPIDefs[d.Name]; ex {
-			if ms := tgMembersByCRC[d.ID]; len(ms) > 0 {
+			if ms := tgMembersByCRC[d.ID]; len(ms) == 1 && wrapperTable[ms[0].Name] == d.Name {
+				r.Hold("R13.R", "excluded:"+key, site, why+"; its hand-written wrapper "+ms[0].Name+" is registered (compared under R13.W)")
+			} else if len(ms) > 0 {
 				r.Violate("R13.R", "excluded-but-registered:"+key, c.pos(ms[0].Pos), sprintf("%s (%s) is a documented exclusion but %s is registered under its id", d.Name, why, ms[0].Name))
 			} else {
 				r.Hold("R13.R", "excluded:"+key, site, why)
@@ -437,7 +439,16 @@ func c13(c *Ctx) {
 	c13Exclusions(c)
 
 	// --- wrappers ---------------------------------------------------------------------------------
-	for _, m := range pp.Unregistered {
+	wrapperMembers := append([]*pop.Member{}, pp.Unregistered...)
+	for gn := range wrapperTable {
+		if tn := c.P.Pkg(load.TgPkg).Types.Scope().Lookup(gn); tn != nil {
+			if m := pp.ByType[tn.(*types.TypeName)]; m != nil {
+				wrapperMembers = append(wrapperMembers, m) // registered by hand: same comparison
+			}
+		}
+	}
+	sort.Slice(wrapperMembers, func(i, j int) bool { return wrapperMembers[i].Name < wrapperMembers[j].Name })
+	for _, m := range wrapperMembers {
 		if m.Pkg != load.TgPkg {
 			continue
 		}
